@@ -19,10 +19,12 @@ pub mod aya_stub {
 
     #[derive(Debug)]
     pub struct MapError;
+    impl MapError {
+        // aya's MapError is Display; the extracted code only calls `.to_string()` on it for log/error text (not modelled)
+        pub fn to_string(&self) -> String { String::new() }
+    }
     impl core::fmt::Display for MapError {
-        fn fmt(&self, f: &mut core::fmt::Formatter<'_>) -> core::fmt::Result {
-            f.write_str("map error")
-        }
+        fn fmt(&self, f: &mut core::fmt::Formatter<'_>) -> core::fmt::Result { f.write_str("map error") }
     }
 
     /// ghost record of the calls made on one map
